@@ -14,6 +14,10 @@ case), C10.prefix/<entry point>/accepted[/unit=<kind>], C10.hang/<entry point>/n
 
 Fault families (each enumerated completely, simplest first):
   small     every octet string of length <= 2 (thorough: <= 3 for the entry points whose first octets steer control flow)
+  field     every octet string of length <= 2 as the payload of a length-consistent, CRC-valid unit: the data field of every PDU kind
+            (behind the directive code) under several header configurations, the packet data field of a PUS TC / TM / service 1 / 17
+            packet, the source data of a service-1 report of every subservice and field width, the value of a TLV of every type,
+            an LV, the data field of a USLP frame - "the length fields are honest, the content is too short"
   valid     the unfaulted reference-encoded unit (control)
   truncate  every strict prefix of every corpus unit                                          [prefix clause + escape clause]
   subst     every one of the 255 other octet values at every position of the first 40 octets of every corpus unit
@@ -39,7 +43,8 @@ LEVEL = "fault_enumeration"
 EXHAUSTIVE = True
 RULE = (
     "case = (entry point, decoder configuration, octet string). Octet strings: all strings of length <= 2 (<= 3 thorough, steering entry points) "
-    "per entry point and configuration; for every reference-encoded corpus unit of the entry point: the unit itself, every strict prefix, every "
+    "per entry point and configuration, bare and as the payload of a length-consistent CRC-valid unit (PDU data field, packet data field, service-1 "
+    "source data, TLV / LV value, USLP frame data field); for every reference-encoded corpus unit of the entry point: the unit itself, every strict prefix, every "
     "single-octet substitution (255 values) at every position < 40, the same with the trailing CRC recomputed for CRC-protected units, every "
     "length-consistent shortening, and (thorough) every substitution at a position < 24 followed by every truncation behind it on 3 units per entry "
     "point. A case is counted distinct/non-trivial when the same (entry point, configuration, octet string) was not produced earlier in its shard "
@@ -47,19 +52,19 @@ RULE = (
     "first-octet range / entry point x corpus-unit range, so they are disjoint by construction)."
 )
 BOUNDS = {
-    "quick": "strings <= 2 octets; prefixes: all; substitution: 255 values x first 40 octets (12 for the managed-parameter / TFDF calling-convention products); shorten: all; deviation bound 1",
-    "thorough": "strings <= 3 octets for steering entry points, <= 2 otherwise; larger corpora; substitution 255 x 40 everywhere; substitute-then-truncate (deviation bound 2) on 3 units per entry point",
+    "quick": "strings <= 2 octets (bare and as payload, 2 header configurations per PDU kind); prefixes: all; substitution: 255 values x first 40 octets (12 for the managed-parameter / TFDF calling-convention products); shorten: all; deviation bound 1",
+    "thorough": "strings <= 3 octets for steering entry points, <= 2 otherwise (payloads: 8 header configurations per PDU kind, 16 width pairs per service-1 subservice); larger corpora; substitution 255 x 40 everywhere; substitute-then-truncate (deviation bound 2) on 3 units per entry point",
 }
 ASSUMPTIONS = [
     "the valid corpus units are reference-encoded (ref/*.py, bound to the repository's byte vectors by the selftests); the oracle is relative: an exception class, or acceptance of a strict prefix",
     "documented classes: ValueError and subclasses, InvalidTcCrc16, InvalidTmCrc16, InvalidCrc, UnsupportedCfdpVersion, TlvTypeMissmatch, InvalidVerifParams, the seven Uslp* classes",
     "prefix clause: units with a length field or a fixed size (unit.self_delimiting, and CFDP PDUs whose header carries the data field length), decoded with the configuration that matches the unit; truncated USLP frames, the TFDF, the TM secondary header and FailureNotice are not self-delimiting",
-    "a call is taken to hang when, twice in a row, it does not return within 2 s or allocates more than 1 GiB (calls take microseconds); batches of 4000 calls share one 10 s timer and are re-run call by call when it expires",
+    "a call is taken to hang when, twice in a row, it does not return within 2 s of CPU time (60 s of wall time) or allocates more than 1 GiB (calls take microseconds); batches of 4000 calls share one 10 s timer and are re-run call by call when it expires",
     "ReservedCfdpMessage.get_* parsers are out of scope (DESIGN.md C10; C18 states what they owe)",
 ]
 
-CALL_BUDGET_S = 2.0
-BATCH_BUDGET_S = 10.0  # 4000 calls take 0.05 - 0.3 s; an expired batch is only re-run call by call, never reported
+CALL_BUDGET_S = 2.0  # CPU seconds of the worker (wall-clock backstop at 30 x)
+BATCH_BUDGET_S = 10.0  # CPU seconds; 4000 calls take 0.05 - 0.3 s; an expired batch is only re-run call by call, never reported
 BATCH = 4000
 MEMORY_HEADROOM = 1 << 30
 SUBST_REGION = 40
@@ -85,9 +90,11 @@ def documented():
 
 
 class Dog(Watchdog):
-    """mc.rec.Watchdog with a repeating timer (a Hang swallowed by an `except Exception` inside a loop is raised again)
-    and an address-space ceiling while it is armed (a loop that allocates must not take the machine down: MemoryError
-    inside the call is treated like an expired budget)"""
+    """mc.rec.Watchdog measuring the CPU time of the worker (ITIMER_PROF) instead of wall time, so that a loaded machine
+    cannot make a call look like a hang and a real loop is caught however little CPU the worker gets; the wall-clock
+    timer of the base class stays armed as a backstop at 30 x the budget (a call that blocks).  The timers repeat (a Hang
+    swallowed by an `except Exception` inside a loop is raised again) and an address-space ceiling is in force while
+    armed (a loop that allocates must not take the machine down: MemoryError inside a call counts as an expired budget)."""
 
     def __enter__(self):
         self._lim = resource.getrlimit(resource.RLIMIT_AS)
@@ -101,11 +108,15 @@ class Dog(Watchdog):
         except (OSError, ValueError):
             pass
         self._old = signal.signal(signal.SIGALRM, self._handler)
-        signal.setitimer(signal.ITIMER_REAL, self.seconds, 0.25)
+        self._oldp = signal.signal(signal.SIGPROF, self._handler)
+        signal.setitimer(signal.ITIMER_PROF, self.seconds, 0.25)
+        signal.setitimer(signal.ITIMER_REAL, 30 * self.seconds, 1.0)
         return self
 
     def __exit__(self, *exc):
+        signal.setitimer(signal.ITIMER_PROF, 0)
         signal.setitimer(signal.ITIMER_REAL, 0)
+        signal.signal(signal.SIGPROF, self._oldp)
         signal.signal(signal.SIGALRM, self._old)
         try:
             resource.setrlimit(resource.RLIMIT_AS, self._lim)
@@ -213,7 +224,7 @@ def attempt(f, b, doc):
 
 
 def fault_dict(fd):
-    keys = {"small": (), "valid": (), "truncate": ("cut",), "subst": ("pos", "value"), "subst+crc": ("pos", "value"), "shorten": ("len",),
+    keys = {"small": (), "field": ("payload",), "valid": (), "truncate": ("cut",), "subst": ("pos", "value"), "subst+crc": ("pos", "value"), "shorten": ("len",),
             "subst>cut": ("pos", "value", "cut")}[fd[0]]
     out = {"family": fd[0]}
     out.update(zip(keys, fd[1:]))
@@ -222,7 +233,7 @@ def fault_dict(fd):
 
 def fault_tuple(fault):
     """inverse of fault_dict (replay)"""
-    return (fault["family"],) + tuple(fault[k] for k in ("pos", "value", "cut", "len") if k in fault)
+    return (fault["family"],) + tuple(fault[k] for k in ("payload", "pos", "value", "cut", "len") if k in fault)
 
 
 def make_case(e, recipe, buf, fd, idx=None):
@@ -261,7 +272,7 @@ def judge(rec, e, recipe, buf, fd, cls, exc, result, idx=None):
 
 def hang_violation(rec, e, recipe, buf, fd, idx=None):
     rec.violation(f"C10.hang/{e.name}/no-return-within-{CALL_BUDGET_S:g}s", make_case(e, recipe, buf, fd, idx),
-                  f"call interrupted by the watchdog twice ({CALL_BUDGET_S:g} s or {MEMORY_HEADROOM >> 20} MiB of new memory)",
+                  f"call interrupted by the watchdog twice ({CALL_BUDGET_S:g} s of CPU time or {MEMORY_HEADROOM >> 20} MiB of new memory)",
                   "returns or raises", repro=T.repro_source(e, recipe, buf))
 
 
@@ -383,19 +394,22 @@ def run_shard(item):
     if item["fam"] == "small":
         cfgs = e.steer_cfgs(tier) if item.get("steer") else e.small_cfgs(tier)
         fd = ("small",)
+        fam = "field" if e.wrap else "small"
         for ci in item["cfgs"]:
             recipe = cfgs[ci]
             f = e.bind(recipe)
             n = 0
-            for chunk in batches(((b, fd) for b in small_strings(item["maxlen"], item["lo"], item["hi"])), BATCH):
+            strings = small_strings(item["maxlen"], item["lo"], item["hi"])
+            gen = ((e.wrap(recipe, b), ("field", b)) for b in strings) if e.wrap else ((b, fd) for b in strings)
+            for chunk in batches(gen, BATCH):
                 run_batch(rec, e, recipe, f, chunk, tally)
                 n += len(chunk)
             rec.evaluations += n
             rec.nontrivial += n  # distinct by construction: (entry, configuration, string), disjoint first-octet ranges
             rec.ops += n
-            fams["small"] += n
+            fams[fam] += n
             rec.count(f"entry[{e.name}]", n)
-            rec.sample({"entry": e.name, "family": "small", "configuration": recipe, "strings": f"all of length <= {item['maxlen']} with first octet in [{item['lo']},{item['hi']})",
+            rec.sample({"entry": e.name, "family": fam, "configuration": recipe, "strings": f"all of length <= {item['maxlen']} with first octet in [{item['lo']},{item['hi']})",
                         "outcomes": dict(tally)}, limit=1)
     else:
         corpus = e.corpus(tier)
@@ -406,7 +420,10 @@ def run_shard(item):
             ck = repr(e.cfgkey(recipe)) if e.cfgkey else ""
             s = seen.setdefault(ck, set())
             n = nt = 0
-            for chunk in batches(unit_tasks(e, recipe, raw, tier, idx), BATCH):
+            gen = unit_tasks(e, recipe, raw, tier, idx)
+            if e.wrap:  # the corpus unit is a payload: every faulted payload travels inside a consistent unit
+                gen = ((e.wrap(recipe, b), fd) for b, fd in gen)
+            for chunk in batches(gen, BATCH):
                 run_batch(rec, e, recipe, f, chunk, tally, idx)
                 for buf, fd in chunk:
                     fams[fd[0]] += 1
